@@ -294,7 +294,9 @@ func checkSegmentMruChain(p *core.Program, r *core.Report) {
 			nO++
 			key := "peer-mru/" + fname(fn) + "/State.SegmentMtu"
 			rule := "the segment size negotiated from the peer's SESS_INIT is at least 1 (a zero size makes the sender spin on empty segments) and bounded from above (a huge size makes the sender's make() panic or exhaust memory)"
-			fromWire := core.DependsOn(st.Val, func(v ssa.Value) bool { return pathEndsWith(v, "SegmentMru") && !pathEndsWith(v, "Configuration", "SegmentMru") })
+			fromWire := core.DependsOn(st.Val, func(v ssa.Value) bool {
+				return pathEndsWith(v, "SegmentMru") && !pathEndsWith(v, "Configuration", "SegmentMru")
+			})
 			if !fromWire {
 				r.OK(key, rule, p.Pos(st.Pos()), "value does not come from the peer")
 				return
